@@ -26,6 +26,19 @@ CHECKS = {
         ref="DESIGN.md section 4 C07"),
 }
 
+CHECKS["C02"] = dict(
+    engine="E2",
+    technique="contract-based deductive verification: modular VCs (kernel, helper and stage contracts) generated from the AST, spec functions from the documented momentum equation, discharged by z3/cvc5 for an arbitrary row and all array lengths",
+    text=("The residual written by the hydraulic derivative stage is proved equal to the documented momentum equation "
+          "(liquid Darcy-Weisbach + hydrostatic + lumped loss; real-gas form with compressibility and mean pressure) for "
+          "nikuradse, swamee-jain and colebrook, both engines; Reynolds number, friction factor and density columns are "
+          "proved to be the spec values used inside the residual; callers are checked against callee contracts."),
+    note=(TB + "floats as reals (A1), transcendental functions uninterpreted with sign/monotonicity axioms (A3), fluid "
+          "property getters uninterpreted functions of their arguments (their classes are under contract in C19), "
+          "scipy.optimize.newton by assumed contract (A4). The converged state satisfies |R| <= tol_res by C05; "
+          "round-off is not bounded."),
+    ref="DESIGN.md section 4 C02")
+
 NOT_APPLICABLE = {
     "C08": "uniqueness of the solution of the nonlinear system within tolerances and convergence of damped Newton in floating point: a whole-history/analytic property, no pre/post contract within reach expresses it (DESIGN.md section 5)",
     "C15": "the save/load round trip is the behaviour of pandapower/pandas/json/pickle/scipy object state; a contract strong enough would have to assume the property (DESIGN.md section 5)",
